@@ -249,70 +249,6 @@ theorem C20_params (ok : Bool) (p : Params) (g : Geff) (h : createDummyInMemGeff
 
 /-! ### statements that need no assumption on the requested names -/
 
-theorem mem_vlTriples {p : Params} {t : Triple} (h : t ∈ vlTriples p) : p.vl = true ∧ t = varLengthTriple p.numNodes := by
-  unfold vlTriples at h
-  split at h <;> simp only [List.mem_singleton, List.not_mem_nil] at h
-  exact ⟨by assumption, h⟩
-
-theorem mem_msTriples {ms : Bool} {k : Nat} {t : Triple} (h : t ∈ msTriples ms k) : ms = true ∧ t = sparseTriple k := by
-  unfold msTriples at h
-  split at h <;> simp only [List.mem_singleton, List.not_mem_nil] at h
-  exact ⟨by assumption, h⟩
-
-theorem mem_axisTriples {p : Params} {t : Triple} (h : t ∈ axisTriples p) :
-    ∃ name unit dtype values, t = axisTriple p.numNodes name unit dtype values := by
-  simp only [axisTriples, List.mem_append] at h
-  rcases h with ((h | h) | h) | h <;> split at h <;> simp only [List.mem_singleton, List.not_mem_nil] at h <;>
-    exact ⟨_, _, _, _, h⟩
-
-theorem mem_of_forall₂ {len : Nat} {items : List (Option String × Req)} {ts : List Triple}
-    (h : List.Forall₂ (fun it t => stepOut len it = .ok t) items ts) {t : Triple} (ht : t ∈ ts) :
-    ∃ it ∈ items, stepOut len it = .ok t := by
-  induction h with
-  | nil => cases ht
-  | cons hs _ ih =>
-    rcases List.mem_cons.1 ht with rfl | ht
-    · exact ⟨_, by simp, hs⟩
-    · obtain ⟨it, hit, h⟩ := ih ht
-      exact ⟨it, by simp [hit], h⟩
-
-/-- where a property of the result comes from -/
-theorem origin_node {p : Params} {xn : List Triple}
-    (hxn : List.Forall₂ (fun it t => stepOut p.numNodes it = .ok t) (itemsOf p.extraNode) xn)
-    {kv : String × PropOut}
-    (h : kv ∈ (pushAll {} (axisTriples p ++ xn ++ vlTriples p ++ msTriples p.ms p.numNodes)).props) :
-    (kv.2.len = p.numNodes ∧ kv.2.varlength = false ∧ kv.2.missing = none) ∨
-    (p.vl = true ∧ kv = ("var_length", varLengthProp p.numNodes)) ∨
-    (p.ms = true ∧ kv = ("sparse_prop", sparseProp p.numNodes)) := by
-  rcases mem_pushAll_props _ _ _ h with h | ⟨t, ht, rfl⟩
-  · cases h
-  · simp only [List.mem_append] at ht
-    rcases ht with ((ht | ht) | ht) | ht
-    · obtain ⟨name, unit, dtype, values, rfl⟩ := mem_axisTriples ht
-      exact Or.inl ⟨rfl, rfl, rfl⟩
-    · obtain ⟨it, _, hs⟩ := mem_of_forall₂ hxn ht
-      obtain ⟨_, h2, h3, h4, _⟩ := stepOut_ok hs
-      exact Or.inl ⟨h2, h3, h4⟩
-    · obtain ⟨hv, rfl⟩ := mem_vlTriples ht
-      exact Or.inr (Or.inl ⟨hv, rfl⟩)
-    · obtain ⟨hm, rfl⟩ := mem_msTriples ht
-      exact Or.inr (Or.inr ⟨hm, rfl⟩)
-
-theorem origin_edge {ms : Bool} {E : Nat} {items : List (Option String × Req)} {xe : List Triple}
-    (hxe : List.Forall₂ (fun it t => stepOut E it = .ok t) items xe) {kv : String × PropOut}
-    (h : kv ∈ (pushAll {} (xe ++ msTriples ms E)).props) :
-    (kv.2.len = E ∧ kv.2.varlength = false ∧ kv.2.missing = none) ∨
-    (ms = true ∧ kv = ("sparse_prop", sparseProp E)) := by
-  rcases mem_pushAll_props _ _ _ h with h | ⟨t, ht, rfl⟩
-  · cases h
-  · simp only [List.mem_append] at ht
-    rcases ht with ht | ht
-    · obtain ⟨it, _, hs⟩ := mem_of_forall₂ hxe ht
-      obtain ⟨_, h2, h3, h4, _⟩ := stepOut_ok hs
-      exact Or.inl ⟨h2, h3, h4⟩
-    · obtain ⟨hm, rfl⟩ := mem_msTriples ht
-      exact Or.inr ⟨hm, rfl⟩
-
 /-- **C20 (lengths)** — no assumption on names: every node property has one entry per node and every
 edge property one entry per edge (what `write_arrays` and the structural validator require). -/
 theorem C20_lengths (ok : Bool) (p : Params) (g : Geff) (h : createDummyInMemGeff ok p = .ok g) :
@@ -442,26 +378,6 @@ are supported dtype strings or arrays with one entry per node / edge -/
 def ExtraOk (len : Nat) (x : Extra) : Prop :=
   x ≠ .notDict ∧ ∀ item ∈ itemsOf x, (∃ k, item.1 = some k) ∧
     ((∃ d, item.2 = .auto d ∧ d ∈ dtypeStrs) ∨ (∃ d tag, item.2 = .arr d len tag))
-
-theorem extraTriples_total {len : Nat} {items : List (Option String × Req)}
-    (h : ∀ item ∈ items, (∃ k, item.1 = some k) ∧
-      ((∃ d, item.2 = .auto d ∧ d ∈ dtypeStrs) ∨ (∃ d tag, item.2 = .arr d len tag))) :
-    ∃ ts, extraTriples len items = .ok ts := by
-  induction items with
-  | nil => exact ⟨[], rfl⟩
-  | cons it rest ih =>
-    obtain ⟨ts, hts⟩ := ih (fun item hi => h item (List.mem_cons_of_mem _ hi))
-    obtain ⟨⟨k, hk⟩, hreq⟩ := h it (by simp)
-    obtain ⟨key, req⟩ := it
-    simp only at hk hreq
-    subst hk
-    rcases hreq with ⟨d, rfl, hd⟩ | ⟨d, tag, rfl⟩
-    · refine ⟨(k, { dtype := npName d, len := len, varlength := false, missing := none, values := autoValues k d len },
-                    { dtype := npName d, varlength := false, unit := none }) :: ts, ?_⟩
-      simp [extraTriples, stepOut, hts, hd]
-    · refine ⟨(k, { dtype := d, len := len, varlength := false, missing := none, values := .given tag },
-                    { dtype := d, varlength := false, unit := none }) :: ts, ?_⟩
-      simp [extraTriples, stepOut, hts]
 
 /-- **C20 (what is accepted)**: the generator accepts *every* parameter record whose extra-property
 arguments are well-formed (array lengths = number of nodes resp. `min(requested, possible)` edges) —
